@@ -129,8 +129,13 @@ def tree_leaves(tree, is_leaf=None):
     return out
 
 
-def tree_reduce(f, tree, *init, is_leaf=None):
+_NOINIT = object()
+
+
+def tree_reduce(f, tree, *init, is_leaf=None, initializer=_NOINIT):
     leaves = tree_leaves(tree, is_leaf=is_leaf)
+    if initializer is not _NOINIT:
+        init = (initializer,)
     if init:
         acc = init[0]
     else:
